@@ -483,6 +483,71 @@ pub fn run(rep: &mut Rep) {
             }
         }
     }
+    // ---- a backlog that is already there when the client starts reading: CONNACK and > 1 KiB of packets in one piece (a
+    // broker flushing the queue of a resumed session), packet boundaries swept across the 1024-byte receive allocation
+    {
+        use crate::refcodec::{self as rc, CPacket, SPacket};
+        let pads: Vec<usize> = if rep.quick() { (960..1040).collect() } else { (400..1100).chain(1900..2100).collect() };
+        rep.note(&format!("backlog from the start: CONNACK + one QoS 1 PUBLISH of {}..{} bytes + 14 small QoS 1 PUBLISH packets fed in one piece before connect() reads anything (also: after 512 bytes consumed packet by packet), run() must acknowledge all of them in order and keep serving", pads[0], pads[pads.len() - 1]));
+        for &pad in &pads {
+            for variant in 0..2u8 {
+                let id = format!("backlog:{pad}:{variant}");
+                idx += 1;
+                if !rep.take(idx, &id) {
+                    continue;
+                }
+                let mut sim = crate::sim::Sim::new(rep.seed);
+                sim.log_enabled = true;
+                sim.cmd(crate::sim::Cmd::Connect(crate::spec::ConnSpec::default()));
+                sim.settle();
+                let mut bytes = Vec::new();
+                let connack = SPacket::Connack { session_present: true, reason: 0, props: vec![] }.encode();
+                let mk = |idp: u16, size: usize| SPacket::Publish(rc::Publish { dup: false, qos: 1, retain: false, topic: "t".into(), id: Some(idp), props: vec![], payload: vec![b'x'; size] }).encode();
+                let mut want_ids: Vec<u16> = Vec::new();
+                if variant == 0 {
+                    bytes.extend_from_slice(&connack);
+                } else {
+                    // the CONNACK and then exactly 512 - 5 bytes of packets, each in a read of its own
+                    sim.feed(&connack);
+                    sim.settle();
+                    sim.cmd(crate::sim::Cmd::Run);
+                    sim.settle();
+                    let p = mk(100, 507 - 7);
+                    sim.feed(&p);
+                    sim.settle();
+                    want_ids.push(100);
+                }
+                bytes.extend_from_slice(&mk(1, pad));
+                want_ids.push(1);
+                for j in 0..14u16 {
+                    bytes.extend_from_slice(&mk(2 + j, (j as usize * 3) % 11));
+                    want_ids.push(2 + j);
+                }
+                sim.feed(&bytes);
+                sim.settle();
+                if variant == 0 {
+                    sim.cmd(crate::sim::Cmd::Run);
+                    sim.settle();
+                }
+                sim.parse_wire();
+                let acks: Vec<u16> = sim.wire.iter().filter_map(|w| match &w.pkt { Ok(CPacket::Ack(a)) if a.kind == rc::AckKind::Puback => Some(a.id), _ => None }).collect();
+                rep.add("evaluations", 1);
+                rep.add("backlog_from_the_start_cases", 1);
+                rep.add("bytes_delivered", bytes.len() as i64);
+                rep.distinct(&("backlog", pad, variant));
+                for p in sim.panics.clone() {
+                    rep.violation(&format!("C03/panic/{p}"), &id, &format!("{p}\n{}", sim.tail_log(20)));
+                }
+                if let Some(r) = sim.run_result() {
+                    rep.violation(&format!("C03/premature-end-of-stream/{}", match &r { Err(e) => e.kind(), _ => "Ok" }), &id, &format!("run() returned {:?} although the transport never signalled end-of-stream; {} of {} PUBLISH packets acknowledged, {} bytes unread; zero-length reads issued by the client: {}\n{}", r, acks.len(), want_ids.len(), sim.unread(), sim.reader.0.borrow().zero_len_reads, sim.tail_log(12)));
+                } else if let Some(st) = sim.stalled() {
+                    rep.violation("C03/lost-wakeup", &id, &format!("{st}\n{}", sim.tail_log(12)));
+                } else if acks != want_ids {
+                    rep.violation("C03/acknowledgements-differ-from-reference-framing", &id, &format!("PUBACKs written {:?}, expected {:?}\n{}", acks, want_ids, sim.tail_log(12)));
+                }
+            }
+        }
+    }
     // ---- long runs of small packets: hundreds of packets consumed back to back without the transport ever running dry
     {
         let ns: Vec<usize> = if rep.quick() { vec![100, 129, 300, 1100] } else { vec![64, 65, 127, 128, 129, 130, 255, 256, 257, 300, 513, 1025, 5000] };
